@@ -96,6 +96,13 @@ GInsEnc(B) == GInsEncRight(B) \/ GInsEncTop(B)
 \* all verdicts of a set at once
 GVerdicts(B) == [fin |-> GFinite(B), poly |-> GPoly(B), npoly |-> ~GPoly(B),
                  ie |-> GInsEnc(B), ier |-> GInsEncRight(B), iem |-> GInsEncTop(B)]
+\* one verdict of a set (for single-question events)
+GVerdict(B, f) == CASE f = "fin"   -> GFinite(B)
+                    [] f = "poly"  -> GPoly(B)
+                    [] f = "npoly" -> ~GPoly(B)
+                    [] f = "ie"    -> GInsEnc(B)
+                    [] f = "ier"   -> GInsEncRight(B)
+                    [] f = "iem"   -> GInsEncTop(B)
 
 \* ---- enumeration and the consistency statements -----------------------------------------
 \* the antichain of minimal elements (what Permuta's Basis keeps), as the sorted tuple
